@@ -252,7 +252,7 @@ def singles(ctx, maxlen):
 def randoms(ctx, n):
     rng = ctx.rng
     ms = []
-    pool = ALPHABET + ["..", "../", "..\\", "%2e", "%2E", "%2f", "%2F", "%5c", "%5C", "%25", "dir", "model", ".fga", "é", " "]
+    pool = ALPHABET + ["..", "../", "..\\", "%2e", "%2E", "%2f", "%2F", "%5c", "%5C", "%25", "dir", "model", ".fga", ".FGA", ".Fga", ".fga.", "é", " "]
     specials = [("42", None), ("true", None), ("null", None), ("{a: b}", None), ("[x.fga]", None), ("!!str 12", b"12"),
                 ("1.5", None), ("&anchor a.fga", b"a.fga"), ("~", None)]
     for i in range(n):
